@@ -234,6 +234,12 @@ pub struct RunCfg {
     /// elements) it would yield this many further elements if asked again
     #[serde(default)]
     pub tail: usize,
+    /// wrapped-iterator kinds with an exact hint only: the size hint under-reports by this many
+    /// elements (a source that is refilled after the concurrent iterator was created, or an
+    /// adaptor with a sloppy size_hint). The iterator yields all `len` elements without a gap;
+    /// what is relaxed in the oracles for such a source is listed in `RunCfg::lying_hint`.
+    #[serde(default)]
+    pub hint_short: usize,
     /// how partly consumed chunks are finished: 0 dropped, 1 `count()`, 2 `last()`
     #[serde(default)]
     pub finish: u8,
@@ -1579,8 +1585,18 @@ pub fn execute(cfg: &RunCfg, run_no: u32) -> RunRecord {
     rec
 }
 
+impl RunCfg {
+    /// The wrapped iterator announces fewer elements than it yields: the crate cannot know the
+    /// length, so chunk sizes (clamped to the announced length) and length queries are not held
+    /// against the model; exactly-once, indices, the end report and its permanence still are.
+    pub fn lying_hint(&self) -> bool {
+        self.hint_short > 0 && self.kind.is_iter() && self.hint == Hint::Exact
+    }
+}
+
 fn probe_of<I: Iterator>(inner: I, n: usize, cfg: &RunCfg) -> Probe<I> {
-    let p = Probe::new(inner, n, cfg.hint);
+    let announced = if cfg.lying_hint() { n.saturating_sub(cfg.hint_short) } else { n };
+    let p = Probe::new(inner, announced, cfg.hint);
     if cfg.tail > 0 {
         p.not_fused()
     } else {
